@@ -916,11 +916,14 @@ fn xorshift(x: &mut u64) -> u64 { *x ^= *x << 13; *x ^= *x >> 7; *x ^= *x << 17;
 fn search_differential(seed: u64, budget: usize, want: Option<&str>) -> (usize, Option<Value>) {
     let mut x: u64 = 0x9E3779B97F4A7C15 ^ seed.wrapping_mul(0xD1B54A32D192ED03) | 1;
     let pick = |x: &mut u64, n: usize| (xorshift(x) % n as u64) as usize;
-    let paths = ["/", "/a/b", "/a%20b/c", "/x/./y/../z", "//p//q/", "/%7Euser/-_.", "/a%2fb", "/a/b/", "/..", "/a/%zz", "/%E4%B8%AD/%e4%b8%ad", "/a;b=c/d@e", "/./", "/a/../../b", "/%2E%2e/x", "/a%25b"];
-    let queries = ["", "a=1", "b=2&a=1&a=0", "a=1&a-b=2", "q=x%20y&q=x+y", "k=v%3D%3D&e=", "%41=1&a=%61", "d=1&d=1", "m=YWJj==", "&&x&&", "x=%zz", "a=%e4%b8%ad&A=1", "z=1&y=2&Z=3", "a=b=c=d", "=v", "x-amz-signature=1"];
+    let paths = ["/", "/a/b", "/a%20b/c", "/x/./y/../z", "//p//q/", "/%7Euser/-_.", "/a%2fb", "/a/b/", "/..", "/a/%zz", "/%E4%B8%AD/%e4%b8%ad", "/a;b=c/d@e", "/./", "/a/../../b", "/%2E%2e/x", "/a%25b",
+        "/x/%2E/y", "/x/%2e%2E/y", "/x/y/%2e%2e", "/a/.../b", "/a/..b/.c", "/a//b//", "/%41%42/%7e", "/a/%2F/b", "/a/b/..", "/a/b/.", "/a%", "/a%4", "/*'()!", "/a/%+1"];
+    let queries = ["", "a=1", "b=2&a=1&a=0", "a=1&a-b=2", "q=x%20y&q=x+y", "k=v%3D%3D&e=", "%41=1&a=%61", "d=1&d=1", "m=YWJj==", "&&x&&", "x=%zz", "a=%e4%b8%ad&A=1", "z=1&y=2&Z=3", "a=b=c=d", "=v", "x-amz-signature=1",
+        "a.b=1&a=2&a-=3", "k=%2B&k=+&k=%20", "x=1&X-Amz-Signature=abc", "p=%7E&p=~", "e=&e", "a=1&&b=2&", "s=a%26b%3Dc", "u=%E2%82%AC"];
     let extra: [&[(&str, &str)]; 8] = [&[], &[("X-Custom", "  a   b  ")], &[("x-dup", "1"), ("X-Dup", "2")], &[("Date", "Sun, 30 Aug 2015 12:36:00 GMT")], &[("X-Amz-Meta-Tab", "a\tb")],
         &[("X-Amz-Target", "Svc.Op"), ("ETag", "\"abc\"")], &[("X-Amz-Security-Token", "tok/en+="), ("x-amz-security-token", "second")], &[("Content-Type", "text/plain")]];
-    let dates = ["20150830T123600Z", "2015-08-30T12:36:00Z", "20150830T143600+0200", "2015-08-30T07:06:00.000-05:30", "20150830T123600,5Z", "20150830T123600", "2015-08-30 12:36:00Z", "20150830T123660Z", "20150230T123600Z", "20150830T122059Z", "20150830T125101Z", "20150830T125100Z", "20150830T122100Z"];
+    let dates = ["20150830T123600Z", "2015-08-30T12:36:00Z", "20150830T143600+0200", "2015-08-30T07:06:00.000-05:30", "20150830T123600,5Z", "20150830T123600", "2015-08-30 12:36:00Z", "20150830T123660Z", "20150230T123600Z", "20150830T122059Z", "20150830T125101Z", "20150830T125100Z", "20150830T122100Z",
+        "20150830T125100.5Z", "20150830T122059.999999999Z", "20150830T125100.000000001Z", "20150830T122100.0Z", "20150831T003000+1200", "20150829T233600-1300", "2015-08-30T12:36:00+00:00", "20150830T123600-0000", "20150830T123600.Z", "20150830T123600+2400", "20150830t123600z", " 20150830T123600Z"];
     let bodies: [&[u8]; 7] = [b"", b"a=3&c=4", b"x=%7E&x=~", b"\xEF\xBB\xBFa=b", b"a=%zz", b"\xff\xfe", b"k=v&&k2"];
     let ctypes = ["application/x-www-form-urlencoded", "application/x-www-form-urlencoded; charset=utf-8", "application/x-www-form-urlencoded;charset=UTF8", "application/x-www-form-urlencoded; Charset=klingon",
         "application/x-www-form-urlencoded ; boundary=x ; CHARSET=utf-8", "Application/X-WWW-Form-Urlencoded", "text/plain; charset=klingon", "application/x-www-form-urlencoded; charset"];
@@ -928,7 +931,7 @@ fn search_differential(seed: u64, budget: usize, want: Option<&str>) -> (usize, 
     let mut n = 0usize;
     while n < budget {
         n += 1;
-        let cfg = Cfg { region: ["us-east-1", "eu-west-1"][if pick(&mut x, 8) == 0 { 1 } else { 0 }], service: "service", now: base_now + chrono::Duration::seconds([0i64, 0, 0, 899, -899, 900, 901, -901, 5][pick(&mut x, 9)]),
+        let cfg = Cfg { region: ["us-east-1", "eu-west-1"][if pick(&mut x, 8) == 0 { 1 } else { 0 }], service: "service", now: base_now + chrono::Duration::milliseconds([0i64, 0, 0, 899_000, -899_000, 900_000, 901_000, -901_000, 5_000, 900_250, -900_250, 43_200_000, -43_200_000][pick(&mut x, 13)]),
             s3: pick(&mut x, 3) == 0, fold: pick(&mut x, 2) == 0,
             always: [vec![], vec![], vec!["X-Amz-Target"], vec!["content-type"]][pick(&mut x, 4)].clone(), ifreq: [vec![], vec!["ETag"], vec!["x-custom"]][pick(&mut x, 3)].clone(),
             prefixes: [vec![], vec![], vec!["x-amz-meta-"], vec!["X-Amz-"]][pick(&mut x, 4)].clone() };
